@@ -104,7 +104,7 @@ def one_history(ctx, i, tmproot):
         hand_written = rng.random() < 0.5
         crlf = rng.random() < 0.4
         edge_edit = (not crlf) and rng.random() < 0.5
-        p = make_project(rng, root, truth, pre, method=method, rich=rich, via_symlink=via_symlink, hand_written=hand_written, crlf_files=crlf)
+        p = make_project(rng, root, truth, pre, method=method, rich=rich, via_symlink=via_symlink, hand_written=hand_written, crlf_files=crlf, tilde_ok=True)
         switch = i % 4 == 3  # switch the truth kind mid-history
         length = 2 + i % 3
         via = "cli" if i % 9 == 4 else "api"
